@@ -43,13 +43,22 @@ def evaluate(ck, c, stream, want_native=True):
         return res
     if want_native:
         ns = S.native_segments(c)
-        if ns is None:
+        if ns is None and S.ref_fault_test(c) is not None and c.r_native and c.r_native['cls'] == 'exit' and c.r_native['rc'] == 1:
+            pass            # the binary stops at the same assertion (assert aborts with exit 1)
+        elif ns is None:
             res['native_unavailable'] = c.r_native['cls'] if c.r_native else 'not-run'
         else:
             res['native'] = S.cmp_compile_vs_run(c, ns, 'native')
     rs = S.ref_segments(c)
     if rs is not None:
         res['ref'] = S.cmp_compile_vs_run(c, rs, 'reference')
+    elif S.ref_fault_test(c) is not None:
+        # a false assertion inside a called function: the reference stops there; at compile time that test must be FAILED
+        k = S.ref_fault_test(c)
+        ex = [t for t in S.real_tests(c) if t[2] != 'SKIPPED']
+        if k < len(ex) and ex[k][2] != 'FAILED':
+            res['ref'] = ['reference: test %s executes a false assertion inside a called function; at compile time it is %s' % (ex[k][0], ex[k][2])]
+        res['native_expected_abort'] = True
     else:
         res['ref_unavailable'] = c.ref_a['cls']
     res['tie'] = S.cmp_model(c)
@@ -143,11 +152,18 @@ def run(ck):
     S.run_real(b, wit, 'c03w')
     for c in wit:
         record(ck, c, evaluate(ck, c, 'witness'), 'witness')
+    # corpus shared with C06: assertions whose truth depends on the loop iteration (counts and verdicts must match run time)
+    corp = [S.hand_case(k, p, sh) for k, (p, sh) in sorted(W.CORPUS.items())]
+    S.run_models(nv3, nvl, corp)
+    S.run_real(b, corp, 'c03c')
+    for c in corp:
+        record(ck, c, evaluate(ck, c, 'gen'), 'gen')
     # 2. main stream: nothing that triggers an open finding; the theorem's hypothesis holds
     cfg = S.stream_cfg(openk)
     n = 400 if ck.thorough else 36
     modes = ['none', 'none', 'none', 'many', 'none', 'first', 'none', 'loop']
-    cases = S.build_cases(ck, nvl, [ck.seed * 100003 + i for i in range(n)], cfg, modes, 's%d' % ck.seed)
+    cases = S.build_cases(ck, nvl, [ck.seed * 100003 + i for i in range(n)], cfg, modes, 's%d' % ck.seed, iter_prob=(0.6, 0.2))
+    S.count_iter(ck, cases)
     S.run_models(nv3, nvl, cases)
     S.run_real(b, cases, 'c03m')
     # block-local shadowing may pick a top-level constant's name: such a program is outside names_apart (dynamic scoping is an
@@ -181,8 +197,8 @@ def run(ck):
                       'statements, run as native binary and on the reference semantics; non-trivial = a shadow block prints or fails; '
                       'distinct = distinct source text.  Streams: finding witnesses, progen stream (open-finding triggers excluded), clash stream '
                       '(evaluator deviates; model must predict it).')
-    for k in ('dropped', 'status', 'clash', 'clash_features_diverging', 'native_unavailable', 'modes', 'features', 'apart'):
-        ck.extra[k] = dict(ck.extra[k])
+    for k in ('dropped', 'status', 'clash', 'clash_features_diverging', 'native_unavailable', 'modes', 'features', 'apart', 'iteration_dependent'):
+        ck.extra[k] = dict(ck.extra.get(k, {}))
     ck.extra['generator_config'] = {k: v for k, v in cfg.__dict__.items()}
     ck.trusted += ['Lang/Ref.v as a faithful transcription of docs/SPECIFICATION.md sections 4-8 (reviewed by hand)',
                    'extraction ExtrOcamlBasic only; extract/nvio.ml, nvio_z.ml, c03_driver.ml (S-expression reader)',
